@@ -20,6 +20,8 @@ def run(ctx):
     simrules.buffer_commit_rule(ctx, 'C01.a', ['cirq.sim.state_vector_simulation_state._BufferedStateVector'])
     shared.sweep_prefix_rule(ctx, 'C01.b')
     simrules.replay_isolation_rule(ctx, 'C01.c')
+    simrules.swap_shortcut_rule(ctx, 'C01.d')
+    ctx.decided.append('C01.d the product-state SWAP relabelling shortcut is taken only for gates that are exactly SWAP (guard interpreted on probe exponents / shifts)')
     sub = type(ctx)(ctx.prop, ctx.tier, ctx.repo)
     c04.run(sub)
     ctx.rule('C01.k', sub.rules['C04.b']['text'], floor=10, style='FDX')
